@@ -32,22 +32,48 @@
 #define SC_ASSIGNS(zck) zck->check_full_hash.type, zck->check_full_hash.ctx, zck->check_chunk_hash.type, zck->check_chunk_hash.ctx, zck->error_state, g_hu_total, g_hu_seen, g_hu_ptr, g_hu_final, g_hu_inits, g_fin_val, g_fin_total, g_fin_seen, g_fin_ptr, g_fpos, g_rd_bytes, g_io_failed, g_last_read, g_watch_seen, g_watch_val; RD_VALID_TARGETS(zck)
 #define SC_WATCH_FULL(zck) (g_hu_hash == &zck->check_full_hash)
 
+/* ---- control-only view (-DVERIF_CTL; units validate_checksums_ctl / zck_validate_data_checksum_ctl) -------------------------
+ * No list shape: the records the walk can stand on are g_n1 and g_n2, two fully nondeterministic chunk records whose `next`
+ * fields are each NULL, g_n1 or g_n2 (cycles and self-loops included); index.first is NULL or g_n1.  Every iteration of a walk
+ * over ANY list is an instance (current record arbitrary, first or not, successor NULL / itself / another arbitrary record).
+ * Clauses that quantify over the list ("every scanned chunk") are V_ENSURES_WF (named list, companion units); the CTL view states
+ * them per record: a record's flag is either untouched or a verdict, and 1 on success. */
+#ifdef VERIF_CTL
+#define V_REQUIRES_CTL(x) V_REQUIRES(x)
+#else
+#define V_REQUIRES_CTL(x)
+#endif
+#define SC_NEXT_IN(p) ((p)->next == NULL || (p)->next == g_n1 || (p)->next == g_n2)
+#define SC_PRE_CTL(zck) (__CPROVER_rw_ok(zck, sizeof(*zck)) && g_n1 != NULL && g_n2 != NULL && g_n3 == NULL && g_n1 != g_n2 && __CPROVER_rw_ok(g_n1, sizeof(zckChunk)) && __CPROVER_rw_ok(g_n2, sizeof(zckChunk)) && \
+    (zck->index.first == NULL || zck->index.first == g_n1) && SC_NEXT_IN(g_n1) && SC_NEXT_IN(g_n2) && zck->error_state >= 0 && \
+    (zck->check_full_hash.type == NULL || zck->check_full_hash.type == &zck->hash_type) && (zck->check_chunk_hash.type == NULL || zck->check_chunk_hash.type == &zck->chunk_hash_type) && \
+    g_sc_valid0[0] == g_n1->valid && g_sc_valid0[1] == g_n2->valid)
+/* per record (CTL): untouched or a verdict / untouched or valid */
+#define SC_REC_VERDICT(i, n) ((n)->valid == g_sc_valid0[i] || SC_VERDICT((n)->valid))
+#define SC_REC_GOOD(i, n) ((n)->valid == g_sc_valid0[i] || (n)->valid == 1)
+#define SC_RD_DELTA(zck) (g_rd_bytes[G_IX(zck->fd)] - V_OLD(g_rd_bytes[G_IX(zck->fd)]))
+
 /* The scan proper: 1 = every scanned chunk and (where the format defines one) the data checksum match, -1 = something does not, 0 = error */
 static int validate_checksums(zckCtx *zck, zck_log_type bad_checksums)
-V_REQUIRES(SC_PRE(zck))
+V_REQUIRES_WF(SC_PRE(zck))
+V_REQUIRES_CTL(SC_PRE_CTL(zck))
 V_ASSIGNS(SC_ASSIGNS(zck))
 V_FREES(zck->check_full_hash.ctx, zck->check_chunk_hash.ctx)
 V_ENSURES(__CPROVER_return_value == 1 || __CPROVER_return_value == 0 || __CPROVER_return_value == -1) /*@C09.validate_checksums.ret*/
 V_ENSURES(__CPROVER_return_value == 0 || (V_OLD(zck->error_state) == 0 && zck->error_state == 0 && zck->mode == ZCK_MODE_READ)) /*@C12,C09.validate_checksums.no_verdict_once_an_error_arose*/
 V_ENSURES(__CPROVER_return_value == 0 || g_fpos[G_IX(zck->fd)] == (g_off_t)zck->data_offset) /*@C09.validate_checksums.leaves_the_descriptor_at_the_data_start*/
 V_ENSURES(__CPROVER_return_value == 0 || (zck->check_full_hash.ctx != NULL && zck->check_full_hash.type == &zck->hash_type && (!SC_WATCH_FULL(zck) || g_hu_total == 0))) /*@C09.validate_checksums.leaves_a_freshly_initialised_data_checksum*/
-V_ENSURES(__CPROVER_return_value == 0 || (SC_VERDICT(g_n1->valid) && (zck->header_only || SC_ALL(1, SC_VERDICT(g_n2->valid), SC_VERDICT(g_n3->valid))))) /*@C09.validate_checksums.every_scanned_chunk_gets_a_verdict*/
-V_ENSURES(__CPROVER_return_value != 1 || (g_n1->valid == 1 && (zck->header_only || SC_ALL(1, g_n2->valid == 1, g_n3->valid == 1)))) /*@C09.validate_checksums.success_only_if_every_scanned_chunk_is_valid*/
-V_ENSURES(__CPROVER_return_value != 1 || zck->has_uncompressed_source != 0 || zck->header_only || !SC_WATCH_FULL(zck) || (g_hu_final == V_OLD(g_hu_final) + 1 && g_fin_total == g_scan_total)) /*@C09.validate_checksums.success_only_if_the_data_checksum_was_verified_over_the_whole_data_section*/
-V_ENSURES(__CPROVER_return_value != -1 || g_n1->valid == -1 || (!zck->header_only && ((g_n2 != NULL && g_n2->valid == -1) || (g_n3 != NULL && g_n3->valid == -1)))) /*@C09.validate_checksums.failure_marks_a_chunk_failed*/
-V_ENSURES(__CPROVER_return_value != -1 || zck->has_uncompressed_source != 0 || zck->header_only || !SC_WATCH_FULL(zck) || g_hu_final == V_OLD(g_hu_final) || SC_ALL(g_n1->valid == -1, g_n2->valid == -1, g_n3->valid == -1)) /*@C09.validate_checksums.data_checksum_mismatch_fails_every_chunk*/
-V_ENSURES(!zck->header_only || SC_ALL(1, g_n2->valid == g_sc_valid0[1], g_n3->valid == g_sc_valid0[2])) /*@C09.validate_checksums.detached_header_scans_only_the_dictionary*/
-V_ENSURES(__CPROVER_return_value != 1 || zck->header_only || g_rd_bytes[G_IX(zck->fd)] == V_OLD(g_rd_bytes[G_IX(zck->fd)]) + g_scan_total) /*@C09,C12.validate_checksums.success_only_if_every_stored_byte_of_the_data_section_was_read_once*/
+V_ENSURES_WF(__CPROVER_return_value == 0 || (SC_VERDICT(g_n1->valid) && (zck->header_only || SC_ALL(1, SC_VERDICT(g_n2->valid), SC_VERDICT(g_n3->valid))))) /*@C09.validate_checksums.every_scanned_chunk_gets_a_verdict*/
+V_ENSURES_WF(__CPROVER_return_value != 1 || (g_n1->valid == 1 && (zck->header_only || SC_ALL(1, g_n2->valid == 1, g_n3->valid == 1)))) /*@C09.validate_checksums.success_only_if_every_scanned_chunk_is_valid*/
+V_ENSURES_WF(__CPROVER_return_value != 1 || zck->has_uncompressed_source != 0 || zck->header_only || !SC_WATCH_FULL(zck) || (g_hu_final == V_OLD(g_hu_final) + 1 && g_fin_total == g_scan_total)) /*@C09.validate_checksums.success_only_if_the_data_checksum_was_verified_over_the_whole_data_section*/
+V_ENSURES_WF(__CPROVER_return_value != -1 || g_n1->valid == -1 || (!zck->header_only && ((g_n2 != NULL && g_n2->valid == -1) || (g_n3 != NULL && g_n3->valid == -1)))) /*@C09.validate_checksums.failure_marks_a_chunk_failed*/
+V_ENSURES_WF(__CPROVER_return_value != -1 || zck->has_uncompressed_source != 0 || zck->header_only || !SC_WATCH_FULL(zck) || g_hu_final == V_OLD(g_hu_final) || SC_ALL(g_n1->valid == -1, g_n2->valid == -1, g_n3->valid == -1)) /*@C09.validate_checksums.data_checksum_mismatch_fails_every_chunk*/
+V_ENSURES_WF(!zck->header_only || SC_ALL(1, g_n2->valid == g_sc_valid0[1], g_n3->valid == g_sc_valid0[2])) /*@C09.validate_checksums.detached_header_scans_only_the_dictionary*/
+V_ENSURES_WF(__CPROVER_return_value != 1 || zck->header_only || g_rd_bytes[G_IX(zck->fd)] == V_OLD(g_rd_bytes[G_IX(zck->fd)]) + g_scan_total) /*@C09,C12.validate_checksums.success_only_if_every_stored_byte_of_the_data_section_was_read_once*/
+V_ENSURES_CTL(__CPROVER_return_value == 0 || (SC_REC_VERDICT(0, g_n1) && SC_REC_VERDICT(1, g_n2))) /*@C09.validate_checksums.a_flag_is_untouched_or_a_verdict*/
+V_ENSURES_CTL(__CPROVER_return_value != 1 || (SC_REC_GOOD(0, g_n1) && SC_REC_GOOD(1, g_n2))) /*@C09.validate_checksums.success_only_if_every_flag_it_set_is_valid*/
+V_ENSURES_CTL(__CPROVER_return_value != 1 || zck->has_uncompressed_source != 0 || zck->header_only || !SC_WATCH_FULL(zck) || (g_hu_final == V_OLD(g_hu_final) + 1 && g_fin_total == SC_RD_DELTA(zck))) /*@C09,C12.validate_checksums.success_only_if_the_data_checksum_was_verified_over_every_byte_read*/
+V_ENSURES_CTL(!zck->header_only || g_n2->valid == g_sc_valid0[1]) /*@C09.validate_checksums.detached_header_touches_only_the_first_entry*/
 ;
 
 int zck_find_valid_chunks(zckCtx *zck)
@@ -87,17 +113,21 @@ V_ENSURES(__CPROVER_return_value != 1 || zck->header_only || g_rd_bytes[G_IX(zck
 /* whole-data checksum validation: 1 = the stored bytes of the whole data section hash to the stored data checksum, -1 = they do not,
  * 0 = error.  Files with the uncompressed-source flag have no data checksum: the call is a full validity scan (validate_checksums). */
 int zck_validate_data_checksum(zckCtx *zck)
-V_REQUIRES(SC_PRE(zck))
+V_REQUIRES_WF(SC_PRE(zck))
+V_REQUIRES_CTL(SC_PRE_CTL(zck))
 V_ASSIGNS(SC_ASSIGNS(zck))
 V_FREES(zck->check_full_hash.ctx, zck->check_chunk_hash.ctx)
 V_ENSURES(__CPROVER_return_value == 1 || __CPROVER_return_value == 0 || __CPROVER_return_value == -1) /*@C09.zck_validate_data_checksum.ret*/
 V_ENSURES(__CPROVER_return_value == 0 || (V_OLD(zck->error_state) == 0 && zck->error_state == 0 && zck->mode == ZCK_MODE_READ)) /*@C12,C09.zck_validate_data_checksum.no_verdict_once_an_error_arose*/
 V_ENSURES(__CPROVER_return_value == 0 || g_fpos[G_IX(zck->fd)] == (g_off_t)zck->data_offset) /*@C09.zck_validate_data_checksum.leaves_the_descriptor_at_the_data_start*/
 V_ENSURES(__CPROVER_return_value == 0 || (zck->check_full_hash.ctx != NULL && zck->check_full_hash.type == &zck->hash_type && (!SC_WATCH_FULL(zck) || g_hu_total == 0))) /*@C09.zck_validate_data_checksum.leaves_a_freshly_initialised_data_checksum*/
-V_ENSURES(__CPROVER_return_value != 1 || zck->has_uncompressed_source != 0 || !SC_WATCH_FULL(zck) || (g_hu_final == V_OLD(g_hu_final) + 1 && g_fin_total == g_scan_total)) /*@C09.zck_validate_data_checksum.success_only_if_the_data_checksum_was_verified_over_the_whole_data_section*/
+V_ENSURES_WF(__CPROVER_return_value != 1 || zck->has_uncompressed_source != 0 || !SC_WATCH_FULL(zck) || (g_hu_final == V_OLD(g_hu_final) + 1 && g_fin_total == g_scan_total)) /*@C09.zck_validate_data_checksum.success_only_if_the_data_checksum_was_verified_over_the_whole_data_section*/
 V_ENSURES(__CPROVER_return_value != 1 || zck->has_uncompressed_source != 0 || !SC_WATCH_FULL(zck) || !(g_k1 < (size_t)zck->hash_type.digest_size) || g_fin_val == zck->full_hash_digest[g_k1]) /*@C09.zck_validate_data_checksum.success_only_if_every_data_digest_byte_equal*/
-V_ENSURES(zck->has_uncompressed_source != 0 || SC_ALL(g_n1->valid == g_sc_valid0[0], g_n2->valid == g_sc_valid0[1], g_n3->valid == g_sc_valid0[2])) /*@C09.zck_validate_data_checksum.touches_no_chunk_flag*/
-V_ENSURES(__CPROVER_return_value != 1 || zck->has_uncompressed_source != 0 || g_rd_bytes[G_IX(zck->fd)] == V_OLD(g_rd_bytes[G_IX(zck->fd)]) + g_scan_total) /*@C09,C12.zck_validate_data_checksum.success_only_if_every_stored_byte_of_the_data_section_was_read_once*/
-V_ENSURES(zck->has_uncompressed_source == 0 || __CPROVER_return_value != 1 || (g_n1->valid == 1 && (zck->header_only || SC_ALL(1, g_n2->valid == 1, g_n3->valid == 1)))) /*@C09.zck_validate_data_checksum.uncompressed_source_success_only_if_every_scanned_chunk_is_valid*/
+V_ENSURES_WF(zck->has_uncompressed_source != 0 || SC_ALL(g_n1->valid == g_sc_valid0[0], g_n2->valid == g_sc_valid0[1], g_n3->valid == g_sc_valid0[2])) /*@C09.zck_validate_data_checksum.touches_no_chunk_flag*/
+V_ENSURES_WF(__CPROVER_return_value != 1 || zck->has_uncompressed_source != 0 || g_rd_bytes[G_IX(zck->fd)] == V_OLD(g_rd_bytes[G_IX(zck->fd)]) + g_scan_total) /*@C09,C12.zck_validate_data_checksum.success_only_if_every_stored_byte_of_the_data_section_was_read_once*/
+V_ENSURES_WF(zck->has_uncompressed_source == 0 || __CPROVER_return_value != 1 || (g_n1->valid == 1 && (zck->header_only || SC_ALL(1, g_n2->valid == 1, g_n3->valid == 1)))) /*@C09.zck_validate_data_checksum.uncompressed_source_success_only_if_every_scanned_chunk_is_valid*/
+V_ENSURES_CTL(__CPROVER_return_value != 1 || zck->has_uncompressed_source != 0 || !SC_WATCH_FULL(zck) || (g_hu_final == V_OLD(g_hu_final) + 1 && g_fin_total == SC_RD_DELTA(zck))) /*@C09,C12.zck_validate_data_checksum.success_only_if_the_data_checksum_was_verified_over_every_byte_read*/
+V_ENSURES_CTL(zck->has_uncompressed_source != 0 || (g_n1->valid == g_sc_valid0[0] && g_n2->valid == g_sc_valid0[1])) /*@C09.zck_validate_data_checksum.touches_no_chunk_flag_ctl*/
+V_ENSURES_CTL(zck->has_uncompressed_source == 0 || __CPROVER_return_value != 1 || (SC_REC_GOOD(0, g_n1) && SC_REC_GOOD(1, g_n2))) /*@C09.zck_validate_data_checksum.uncompressed_source_success_only_if_every_flag_it_set_is_valid*/
 ;
 #endif
